@@ -5,6 +5,7 @@ package main
 
 import (
 	"fmt"
+	"github.com/ovn-org/libovsdb/ovsdb"
 
 	"github.com/ovn-org/libovsdb/updates"
 )
@@ -58,6 +59,7 @@ func runC10(r *Run) {
 		}
 		c10Pair(r, ct, a, b)
 	}
+	c10Rows(r, n/8)
 	if r.Tier == "thorough" {
 		c10Exhaustive(r)
 	}
@@ -221,4 +223,98 @@ func c10Exhaustive(r *Run) {
 		}
 	}
 	r.Notes = append(r.Notes, fmt.Sprintf("exhaustive sweep: %d ordered integer sets squared, %d string->int maps squared", len(lists), len(maps)))
+}
+
+// c10Rows: the law at the level of whole rows, through the code paths that
+// produce and consume modify rows: AddOperation(update) gives a new model and a
+// modify row; the new model is the old one overlaid with the update row, and the
+// modify row applied to the old model (AddRowUpdate2) gives the same model. The
+// update row repeats unchanged columns (non-empty sets and maps included), as a
+// client writing a whole model back does.
+func c10Rows(r *Run, n int) {
+	uuid := uuidPool[1]
+	for i := 0; i < n; i++ {
+		t := genTableSpec(r.Rng, "T", 3+r.Rng.Intn(5))
+		for ci := range t.Cols {
+			t.Cols[ci].Immutable = false
+		}
+		db, err := BuildDB(SchemaSpec{Name: "db", Tables: []TableSpec{t}}, nil)
+		if err != nil {
+			continue
+		}
+		a, upd, b := Row{}, Row{}, Row{}
+		changed := 0
+		for _, c := range t.Cols {
+			a[c.Name] = genValue(r.Rng, c.Type)
+			b[c.Name] = cloneValue(a[c.Name])
+			switch r.Rng.Intn(3) {
+			case 0: // repeated unchanged
+				upd[c.Name] = nativeToOvsValue(cloneValue(a[c.Name]))
+			case 1: // changed
+				nv := genValue(r.Rng, c.Type)
+				upd[c.Name] = nativeToOvsValue(nv)
+				b[c.Name] = nv
+				if nv.Canon() != a[c.Name].Canon() {
+					changed++
+				}
+			}
+		}
+		cs := map[string]interface{}{"table": t, "old": ModelJ{uuid, a}, "update": upd}
+		key := ""
+		if changed > 0 {
+			key = fmt.Sprint(t, a.Canon(), upd.Canon())
+		}
+		r.Case("row-update", key)
+		var n1, n2 Row
+		var modify Row
+		var failure string
+		func() {
+			defer func() {
+				if p := recover(); p != nil {
+					failure = fmt.Sprint("panic: ", p)
+				}
+			}()
+			u1 := updates.ModelUpdates{}
+			if err := u1.AddOperation(db.Model, "T", uuid, db.NewModel("T", uuid, a), RowOperationJ{Op: "update", Row: upd}.toOvs("T")); err != nil {
+				failure = "AddOperation: " + err.Error()
+				return
+			}
+			mu := readUpdate(db, &u1, "T", uuid)
+			if changed == 0 {
+				if mu.New != nil && mu.New.Row.Canon() != a.Canon() {
+					failure = "an update that changes nothing produced the model " + mu.New.Row.Canon()
+				}
+				return
+			}
+			if mu.New == nil || mu.RU2 == nil || mu.RU2.Modify == nil {
+				failure = "no update produced although a column changed"
+				return
+			}
+			n1, modify = mu.New.Row, mu.RU2.Modify
+			u2 := updates.ModelUpdates{}
+			mod := rowToOvs(modify)
+			if err := u2.AddRowUpdate2(db.Model, "T", uuid, db.NewModel("T", uuid, a), ovsdb.RowUpdate2{Modify: &mod}); err != nil {
+				failure = "AddRowUpdate2: " + err.Error()
+				return
+			}
+			if m2 := readUpdate(db, &u2, "T", uuid); m2.New != nil {
+				n2 = m2.New.Row
+			}
+		}()
+		if failure != "" {
+			r.Violation("row-update", cs, failure, b.Canon(), true, "updating a row failed", "")
+			continue
+		}
+		if changed == 0 {
+			continue
+		}
+		if n1.Canon() != b.Canon() {
+			r.Violation("row-update", cs, n1.Canon(), b.Canon(), true, "the new model of an update is not the old model overlaid with the update row", "")
+			continue
+		}
+		if n2 == nil || n2.Canon() != b.Canon() {
+			cs["modify"] = modify
+			r.Violation("row-update", cs, fmt.Sprint(n2.Canon()), b.Canon(), true, "the modify row applied to the old model does not give the new model", "")
+		}
+	}
 }
